@@ -6,7 +6,7 @@ ENGINES = [
     {"name": "E1 symsem", "path": "vlib/symsem.py + vlib/sym.py", "kind_free_text":
         "real inference pipeline executed with symbolic weights (SymReal proxies through the real "
         "SemiringProbability; z3 Bool semiring for the world dimension)",
-     "serves_properties": ["C01", "C03", "C04", "C06", "C07", "C08", "C25", "C26", "C29"]},
+     "serves_properties": ["C01", "C02", "C03", "C04", "C05", "C06", "C07", "C08", "C25", "C26", "C29"]},
     {"name": "E2 refsem", "path": "vlib/refsem.py", "kind_free_text":
         "independent reference distribution semantics as z3 terms", "serves_properties": ["C01"]},
     {"name": "E3 tv", "path": "vlib/tv.py", "kind_free_text":
@@ -53,4 +53,11 @@ CHECKS["C03"] = dict(engine="E1 symsem (diffcheck)", category=TV, technique=RVR 
 CHECKS["C04"] = dict(engine="E1 symsem (diffcheck)", category=TV, technique=RVR + "; configurations = unbuffered, rc_first, seeded RandomOrderQueue from engine.rst",
     text="Default engine vs StackBasedEngine(unbuffered=True), (unbuffered=True, rc_first=True) and the documented random e-message order: z3 proves identity of the query functions; accept/reject compared. Three classes of genuine disagreement are recorded as known findings (matched by engine mode + exception type + call site).",
     note="Random orders are seeded samples. Known findings suppress only the listed (mode, exception, call-site) triples; any value disagreement is still a violation.")
+CHECKS["C02"] = dict(engine="E2 refsem (alternating fixpoint in z3) + E1", category=TV,
+    technique="solver classification of each skeleton (z3 over the unrolled alternating-fixpoint WFM: is a queried atom undefined in some world?) + real run; must-answer programs get C01's obligations",
+    text="must-answer iff the FULL ground dependency graph has no cycle through negation (then NegativeCycle must not be raised and C01's solver-decided obligations hold); must-reject iff z3 finds a legal world in which a query/evidence atom is undefined in the well-founded model (then a GroundingError must be raised, never numbers); everything else asserts nothing.",
+    note="must-reject is deliberately narrower than the property's wording so that a correct tree is never flagged. Skeletons: hand corpus + seeded negative-loop family.")
+CHECKS["C05"] = dict(engine="E1 symsem (diffcheck)", category=TV, technique=RVR + "; semiring variants incl. SemiringSymbolic expression parsed back into z3 terms",
+    text="ddnnf vs the default evaluatable choice; probability semiring vs NSP variant, a user-defined probability semiring built on the base-class defaults (and its NSP variant), and SemiringSymbolic whose output expression is parsed back and proved equal for all parameter values. Log-probability is anchored concretely at an interior point.",
+    note="NOT covered here: SDD, SDDExplicit, ForwardSDD, ForwardBDD, BDD (PySDD not installed, is_available() False). Log-prob algebra for all values is C12.")
 NOT_APPLICABLE = {}
